@@ -709,11 +709,11 @@ Proof.
   { intros S topic topic_id HS. pose proof (timed_block S (TxSubscribe mid topic_id)) as HT.
     unfold new_obj in *. cbn [fst snd] in HT. apply pt_mq_send. apply HT; [exact HS|exact I]. }
   destruct ((2 <? qos) || (mid =? 0)); [apply pt_stop, H|].
-  pose proof (new_topic_id_req cfg s) as Hn. destruct (new_topic_id cfg s) as [s1 r]. cbn [fst] in Hn.
+  pose proof (register_topic_req cfg s name) as Hn. destruct (register_topic cfg s name) as [s1 r]. cbn [fst] in Hn.
   assert (H1 : TI' s1) by (eapply TI_req; eassumption).
   destruct (tit =? TIT_STRING).
   - destruct (negb (has_wildcard name)); [|apply Hgo, H].
-    destruct r as [i|]; [apply Hgo; ti_tac|apply pt_sn_send_owned, H1].
+    destruct r as [i|]; [apply Hgo, H1|apply pt_sn_send_owned, H1].
   - destruct (tit =? TIT_PREDEFINED).
     + destruct (get_name (predefined cfg) (gw_client_id s) tid); [apply Hgo, H|apply pt_stop, H].
     + destruct (tit =? TIT_SHORT); apply Hgo, H.
